@@ -25,11 +25,11 @@ def enterBy (p : Prog) (k : Nat → VmState → ExecRes) (s : VmState) (label : 
     if s.stack.count < arity then failAt s .missingArgument else
     let fr : Frame := { src := pos, dst := p.bytecode.size - 1, stackOffset := s.stack.count - arity, closure := closure }
     if s.frames.length + 1 > s.frameCap then failAt s .callStackOverflow else
-    if s.frames.length + 2 > s.frameCap then failAt { s with frames := s.frames ++ [fr] } .callStackOverflow else
+    if s.frames.length + 2 > s.frameCap then (s, .error ⟨.callStackOverflow, 0, s.frames ++ [fr]⟩) else
     match k pos { s with frames := s.frames ++ [fr, fr] } with
     | (s', .ok _) =>
-      ({ s' with frames := s'.frames.dropLast, stack := s'.stack.pop.1 }, .ok (some s'.stack.pop.2))
-    | (s', .error e) => (s', .error e)
+      ({ s' with frames := s'.frames.take s.frames.length, stack := s'.stack.pop.1 }, .ok (some s'.stack.pop.2))
+    | (s', .error e) => ({ s' with frames := s'.frames.take s.frames.length }, .error e)
 
 /-- the dispatch loop and `run_function`, parametrised by the instruction and the host call -/
 def execG (stp : Reenter → Nat → M Ctl) (nat : Reenter → UInt32 → M Unit) (p : Prog) :
@@ -205,15 +205,26 @@ theorem Agree.pushFrames {K : Nat → Prop} {s t : VmState} (h : Agree c K s t) 
         · exact hfr f hf a hfa)
       (fun a ha => h.k_upv ha) (fun a ha => h.k_guard ha))
 
-/-- the epilogue of `run_function`: drop the frame, pop the result (which stays in `K`) -/
-theorem Agree.epilogue {K : Nat → Prop} {s t : VmState} (h : Agree c K s t) :
-    Agree c K { s with frames := s.frames.dropLast, stack := s.stack.pop.1 }
-              { t with frames := t.frames.dropLast, stack := t.stack.pop.1 } :=
+/-- the epilogue of `run_function`: pop the call stack back to the entry depth, pop the result
+    (which stays in `K`) -/
+theorem Agree.epilogue {K : Nat → Prop} {s t : VmState} (h : Agree c K s t) (n : Nat) :
+    Agree c K { s with frames := s.frames.take n, stack := s.stack.pop.1 }
+              { t with frames := t.frames.take n, stack := t.stack.pop.1 } :=
   h.reroot rfl rfl rfl rfl (h.stack.map (fun x => x.pop.1) h.stack.1.pop.1) h.globals
-    (by show t.frames.dropLast = s.frames.dropLast; rw [h.frames])
+    (by show t.frames.take n = s.frames.take n; rw [h.frames])
     h.openUpvalues h.guards h.remaining h.dispatches h.hostLog h.frameCap
     (rootsK_of (fun v hv => h.vk_stack (SchedSim.mem_pop_contents hv)) (fun v hv => h.vk_global hv)
-      (fun f hf a hfa => h.k_frame (List.dropLast_subset _ hf) hfa)
+      (fun f hf a hfa => h.k_frame (List.mem_of_mem_take hf) hfa)
+      (fun a ha => h.k_upv ha) (fun a ha => h.k_guard ha))
+
+/-- the epilogue of a failed `run_function`: pop the call stack back to the entry depth -/
+theorem Agree.takeFrames {K : Nat → Prop} {s t : VmState} (h : Agree c K s t) (n : Nat) :
+    Agree c K { s with frames := s.frames.take n } { t with frames := t.frames.take n } :=
+  h.reroot rfl rfl rfl rfl h.stack h.globals
+    (by show t.frames.take n = s.frames.take n; rw [h.frames])
+    h.openUpvalues h.guards h.remaining h.dispatches h.hostLog h.frameCap
+    (rootsK_of (fun v hv => h.vk_stack hv) (fun v hv => h.vk_global hv)
+      (fun f hf a hfa => h.k_frame (List.mem_of_mem_take hf) hfa)
       (fun a ha => h.k_upv ha) (fun a ha => h.k_guard ha))
 
 theorem Agree.popStack {K : Nat → Prop} {s t : VmState} (h : Agree c K s t) :
@@ -251,10 +262,7 @@ theorem enterBy_sim (p : Prog) (k₁ k₂ : Nat → VmState → ExecRes)
     by_cases c3 : s.frames.length + 2 > s.frameCap
     · have c3' : t.frames.length + 2 > t.frameCap := by omega
       rw [if_pos c3, if_pos c3']
-      exact failAt_execEq (h.pushFrames [⟨pos, p.bytecode.size - 1, s.stack.count - ar, cl⟩]
-        (fun f hf a hfa => by
-          rcases List.mem_singleton.mp hf with rfl
-          exact hc a hfa)).rel _
+      exact ⟨by show Except.error _ = Except.error _; rw [h.frames], h.rel, fun v hv => by cases hv⟩
     have c3' : ¬ t.frames.length + 2 > t.frameCap := by omega
     rw [if_neg c3, if_neg c3']
     have h0 := h.pushFrames [⟨pos, p.bytecode.size - 1, s.stack.count - ar, cl⟩,
@@ -270,17 +278,20 @@ theorem enterBy_sim (p : Prog) (k₁ k₂ : Nat → VmState → ExecRes)
     dsimp only at e1 e2
     subst e1
     cases r' with
-    | error e => exact ⟨rfl, e2, fun v hv => by cases hv⟩
+    | error e =>
+      obtain ⟨K', hA'⟩ := e2
+      exact ⟨rfl, ef ▸ (hA'.takeFrames _).rel, fun v hv => by cases hv⟩
     | ok v =>
       obtain ⟨K', hA'⟩ := e2
       dsimp only
-      refine ⟨?_, hA'.epilogue.rel, ?_⟩
+      rw [ef]
+      refine ⟨?_, (hA'.epilogue _).rel, ?_⟩
       · show Except.ok (some t'.stack.pop.2) = Except.ok (some s'.stack.pop.2)
         rw [hA'.stack.1.pop.2]
       · intro w hw
         simp only [Except.ok.injEq, Option.some.injEq] at hw
         subst hw
-        exact ⟨K', hA'.epilogue, hA'.vk_pop⟩
+        exact ⟨K', hA'.epilogue _, hA'.vk_pop⟩
 
 /-- what a task needs: the callee of `run_function` denotes the same thing in both machines -/
 def TaskOk (K : Nat → Prop) : Task → Prop
